@@ -60,7 +60,28 @@ func buildSite(r *rand.Rand, org *origin.Server, k int, shared []string) (seedUR
 	nassets := r.Intn(6)
 	for i := 0; i < nassets; i++ {
 		a := fmt.Sprintf("%s/a%d.png", p, i)
-		switch r.Intn(16) {
+		switch r.Intn(20) {
+		case 15: // redirect to a URL the page also embeds directly (the target duplicates a node of the tree and is removed)
+			sib := fmt.Sprintf("%s/sib%d.png", p, i)
+			org.Route(h, sib, okImage(k*100+i))
+			org.Route(h, a, origin.Resp{Status: 301, Location: sib})
+			if r.Intn(2) == 0 {
+				assets = append(assets, sib, a)
+			} else {
+				assets = append(assets, a, sib)
+			}
+		case 16: // redirect whose Location is not a URL the crawler accepts
+			org.Route(h, a, origin.Resp{Status: 302, Location: []string{"http://[::bad/x.png", "http://nodot/x.png", "ftp://files.example/x.png"}[r.Intn(3)]})
+			assets = append(assets, a)
+		case 17: // redirect to an excluded URL
+			org.Route(h, a, origin.Resp{Status: 301, Location: "http://web.archive.org/web/x.png"})
+			assets = append(assets, a)
+		case 18: // redirect to itself, with and without a fragment
+			org.Route(h, a, origin.Resp{Status: 302, Location: []string{a, a + "#again", abs(a)}[r.Intn(3)]})
+			assets = append(assets, a)
+		case 19: // redirect to the page that embeds it
+			org.Route(h, a, origin.Resp{Status: 302, Location: page})
+			assets = append(assets, a)
 		case 14: // a host that is down: the connection is refused, nothing is ever sent or captured
 			assets = append(assets, fmt.Sprintf("http://127.0.0.9:1%s/down%d.png", p, i))
 		case 13: // the body is cut short: fewer bytes than announced
